@@ -391,7 +391,16 @@ def run(ctx, n: int, styles=("static", "symbolic", "none"), label="scatter", kin
             try:
                 res = impl.run_model(model, feeds, outs)
             except Exception as e:
-                ctx.violation(f"{c.kind}/exported-model-fails-to-run", f"{c.ident}: onnxruntime raises {type(e).__name__} on shape {sh}: {str(e)[:160]}",
+                # the exported model, or onnxruntime's graph optimiser?  (same model, optimisations disabled, compared with NumPy)
+                suffix = ""
+                try:
+                    sess0 = impl.session(model, optimise=False)
+                    raw0 = dict(zip([o.name for o in sess0.get_outputs()], sess0.run(None, feeds)))
+                    if all(np.shape(raw0[nm]) == np.shape(ref[nm]) and np.array_equal(raw0[nm], ref[nm]) for nm in want):
+                        suffix = "-only-with-onnxruntime-graph-optimizations"
+                except Exception:
+                    pass
+                ctx.violation(f"{c.kind}/exported-model-fails-to-run" + suffix, f"{c.ident}: onnxruntime raises {type(e).__name__} on shape {sh}: {str(e)[:160]}",
                               {"case": repr(c.ident), "feeds": {k: v.tolist() for k, v in feeds.items()}, "error": str(e)[:300]})
                 continue
             for name in want:
